@@ -126,17 +126,18 @@ def render (ts : List Tok) : String := String.join (ts.map Tok.text)
 
 def digitsVal (ds : List Char) : Nat := ds.foldl (fun a c => a * 10 + (c.toNat - 48)) 0
 
+def stripSign : List Char → Bool × List Char
+  | '-' :: r => (true, r)
+  | '+' :: r => (false, r)
+  | r => (false, r)
+
 /-- `str::parse::<i64>`: optional sign, at least one ASCII digit, value in range. -/
 def parseI64 (s : String) : Option Int :=
-  let cs := s.toList
-  let (neg, ds) := match cs with
-    | '-' :: r => (true, r)
-    | '+' :: r => (false, r)
-    | r => (false, r)
-  if ds.isEmpty || !ds.all Char.isDigit then none
+  let sd := stripSign s.toList
+  if sd.2.isEmpty || !sd.2.all Char.isDigit then none
   else
-    let n : Nat := digitsVal ds
-    let v : Int := if neg then - (n : Int) else (n : Int)
+    let n : Nat := digitsVal sd.2
+    let v : Int := if sd.1 then - (n : Int) else (n : Int)
     if - (9223372036854775808 : Int) ≤ v && v < 9223372036854775808 then some v else none
 
 /-- what the printed text of a float literal is read back as: an integer token if it looks like one. -/
@@ -162,6 +163,37 @@ def FloatLit.jsonExact (f : FloatLit) : Bool :=
 
 /-- the literal keeps its kind through print + re-read. -/
 def FloatLit.stable (f : FloatLit) : Bool := (parseI64 f.text).isNone
+
+/-! #### the same classification from the bit pattern alone (IEEE-754 binary64) -/
+
+def f64Exp (b : Nat) : Nat := (b / 4503599627370496) % 2048        -- biased exponent
+def f64Man (b : Nat) : Nat := b % 4503599627370496                  -- 52 fraction bits
+def f64Neg (b : Nat) : Bool := (b / 9223372036854775808) % 2 == 1
+
+/-- number of trailing zero bits of a positive number (fuel-bounded). -/
+def trailingZeros : Nat → Nat → Nat
+  | 0, _ => 0
+  | fuel + 1, n => if n % 2 == 0 && n != 0 then 1 + trailingZeros fuel (n / 2) else 0
+
+/-- the value is a (mathematical) integer: ±0, or a normal number whose fraction bits below the binary
+    point are all zero.  Subnormals other than zero, infinities and NaNs are not. -/
+def f64Integral (b : Nat) : Bool :=
+  let e := f64Exp b
+  let m := f64Man b
+  if e == 2047 then false
+  else if e == 0 then m == 0
+  else if e ≥ 1075 then true
+  else if e < 1023 then false
+  else trailingZeros 53 (4503599627370496 + m) ≥ 1075 - e
+
+/-- |value| < 2⁶³.  (−2⁶³ itself is an i64, but `{}` prints the *shortest* decimal that rounds to the
+    double, `-9223372036854776000`, which is not; below 2⁶³ the printed integer stays in range.) -/
+def f64InI64 (b : Nat) : Bool := f64Exp b < 1086
+
+/-- a float literal keeps its kind iff its value is not an integer representable as i64 — stated on
+    the bits; agreement with the text-based `FloatLit.stable` is what the `c09.lit` requests check
+    against Rust's formatter. -/
+def bitsStable (b : Nat) : Bool := !(f64Integral b && f64InI64 b)
 
 /-- the two characters the scientific-notation guard looks at (`e`/`E` preceded by a digit):
     an identifier like `V1e` directly before `+`/`-` hides that operator from the splitter. -/
